@@ -245,16 +245,16 @@ def shrinking_slice(prog, fn, head, body):
         exits = [x for x in ls if x[0] == "exit"]
         if not nexts or not exits:
             continue
-        if not _exits_when_empty(tree, R):
-            continue
+        # a natural-number measure (the slice's length) that strictly decreases on every way round the loop is enough,
+        # whatever the exit test is; when the loop is known to be left on an empty slice, `len >= 1` may be used inside
+        guard = R if _exits_when_empty(tree, R) else None
         okk = True
-        eng = interval.Engine(prog)
         for nx in nexts:
             for v in leaves(nx[1][0], []):
-                if not _strict_suffix_or_empty(v, R, ev):
+                if not _strict_suffix_or_empty(v, R, ev, guard):
                     okk = False
         if okk:
-            return "local `%s` is empty at exit and on every back edge is a strict suffix of itself (split at n >= 1) or the empty slice" % (fn.local_name(l) or l)
+            return "on every back edge local `%s` is a strict suffix of itself (split at n >= 1) or the empty slice: its length strictly decreases" % (fn.local_name(l) or l)
     return None
 
 
@@ -271,7 +271,7 @@ def _exits_when_empty(tree, R):
     return False
 
 
-def _strict_suffix_or_empty(v, R, ev):
+def _strict_suffix_or_empty(v, R, ev, guard=None):
     from . import sym
     if v[0] == "array" and len(v[1]) == 0:
         return True
@@ -283,9 +283,9 @@ def _strict_suffix_or_empty(v, R, ev):
         if inner[0] == "vfld" and inner[2] == "Some":
             call = inner[1]
             if call[0] == "call" and call[1].endswith("::split_at_checked") and call[2][0] == R:
-                return _lower_bound(call[2][1], R) >= 1
+                return _lower_bound(call[2][1], guard) >= 1
         if inner[0] == "call" and inner[1].endswith("::split_at") and inner[2][0] == R:
-            return _lower_bound(inner[2][1], R) >= 1
+            return _lower_bound(inner[2][1], guard) >= 1
     return False
 
 
